@@ -65,24 +65,27 @@ Walk(base, segs, i) ==
 HasScheme(p) == \E i \in 2..Len(p) : p[i] = COLON /\ \A j \in 1..(i - 1) : p[j] # SLASH
 
 (* Resolve a hyperlink found on  page  (a path below the output directory) against the set of produced pages. *)
-(* A URL that denotes a directory denotes that directory's index.html (the namespace pages are named so that  *)
-(* a web server's directory index serves them).  Result: [ok, why, page, frag].                               *)
+(* A URL that denotes a directory denotes that directory's index.html AND NOTHING ELSE: that is the web         *)
+(* convention (a server's directory index), it is not "whatever namespace page the run produced".  A run that    *)
+(* names its namespace pages differently (--namespace-output-stem / --output-extension) produces no index.html, *)
+(* so a directory URL then resolves to a page that is not among the produced ones.                             *)
+(* Result: [ok, why, page, frag, dir]; dir = the URL denoted a directory (index.html was supplied by Resolve).  *)
 Resolve(page, href, pages) ==
     LET h     == IndexOf(href, HASH)
         pq    == IF h = 0 THEN href ELSE SubSeq(href, 1, h - 1)
         frag  == IF h = 0 THEN <<>> ELSE SubSeq(href, h + 1, Len(href))
         q     == IndexOf(pq, QMARK)
         path  == IF q = 0 THEN pq ELSE SubSeq(pq, 1, q - 1)
-    IN  IF path = <<>> THEN [ok |-> TRUE, why |-> "ok", page |-> page, frag |-> frag]
-        ELSE IF HasScheme(path) THEN [ok |-> FALSE, why |-> "external", page |-> <<>>, frag |-> frag]
+    IN  IF path = <<>> THEN [ok |-> TRUE, why |-> "ok", page |-> page, frag |-> frag, dir |-> FALSE]
+        ELSE IF HasScheme(path) THEN [ok |-> FALSE, why |-> "external", page |-> <<>>, frag |-> frag, dir |-> FALSE]
         ELSE LET base == IF path[1] = SLASH THEN <<>> ELSE SubSeq(page, 1, Len(page) - 1)
                  segs == SplitOn(path, SLASH)
                  w    == Walk(base, segs, 1)
                  dir  == path[Len(path)] = SLASH \/ segs[Len(segs)] \in {<<DOT>>, <<DOT, DOT>>}
-             IN  IF ~w.ok THEN [ok |-> FALSE, why |-> "outside-output", page |-> <<>>, frag |-> frag]
-                 ELSE LET tgt == IF dir \/ (w.path \notin pages /\ Append(w.path, N_index_html) \in pages)
-                                 THEN Append(w.path, N_index_html) ELSE w.path
-                      IN [ok |-> TRUE, why |-> "ok", page |-> tgt, frag |-> frag]
+             IN  IF ~w.ok THEN [ok |-> FALSE, why |-> "outside-output", page |-> <<>>, frag |-> frag, dir |-> FALSE]
+                 ELSE LET isdir == dir \/ (w.path \notin pages /\ Append(w.path, N_index_html) \in pages)
+                          tgt   == IF isdir THEN Append(w.path, N_index_html) ELSE w.path
+                      IN [ok |-> TRUE, why |-> "ok", page |-> tgt, frag |-> frag, dir |-> isdir]
 
 (* THE link clause: the link points to a page and an anchor the run produced.                                *)
 LinkVerdict(lk, pages, ids) ==
@@ -245,12 +248,12 @@ DoEndDoc(s, e) ==
 (* every link resolved and judged once: [lk |-> [to, frag, why]]                                              *)
 Judged(links, pages, ids) ==
     [lk \in links |-> LET r == Resolve(lk.from, lk.href, pages)
-                      IN [to |-> r.page, frag |-> r.frag,
+                      IN [to |-> r.page, frag |-> r.frag, dir |-> r.dir,
                           why |-> IF ~r.ok THEN r.why
                                   ELSE IF r.page \notin pages THEN "page-not-produced"
                                   ELSE IF r.frag # <<>> /\ <<r.page, r.frag>> \notin ids THEN "anchor-not-produced"
                                   ELSE "ok"]]
-BrokenJ(J) == {[link |-> lk, why |-> J[lk].why, to |-> J[lk].to] : lk \in {lk \in DOMAIN J : J[lk].why # "ok"}}
+BrokenJ(J) == {[link |-> lk, why |-> J[lk].why, to |-> J[lk].to, dir |-> J[lk].dir] : lk \in {lk \in DOMAIN J : J[lk].why # "ok"}}
 UnlistedJ(nt, J) == LET good == {lk \in DOMAIN J : J[lk].why = "ok"} IN {t \in 0..nt : t < nt /\ ~\E lk \in good : t \in lk.refs}
 SharedJ(J) ==
     LET one == {lk \in DOMAIN J : J[lk].why = "ok" /\ Cardinality(lk.refs) = 1 /\ J[lk].frag # <<>>}
@@ -359,17 +362,27 @@ ASSUME ~AcceptsPage(<<[OpenEv(N_p) EXCEPT !.bad = <<"dupattr">>], CloseEv(N_p)>>
 UA == <<97>>  UB == <<98>>
 UPages == {<<UA, N_index_html>>, <<UA, UB, N_index_html>>}
 UR(page, href) == Resolve(page, href, UPages)
-ASSUME UR(<<UA, UB, N_index_html>>, <<46, 46, 47, 35, 120>>) = [ok |-> TRUE, why |-> "ok", page |-> <<UA, N_index_html>>, frag |-> <<120>>]   \* ../#x
+ASSUME UR(<<UA, UB, N_index_html>>, <<46, 46, 47, 35, 120>>) = [ok |-> TRUE, why |-> "ok", page |-> <<UA, N_index_html>>, frag |-> <<120>>, dir |-> TRUE]   \* ../#x
 ASSUME UR(<<UA, N_index_html>>, <<47, 97, 47, 98, 47>>).page = <<UA, UB, N_index_html>>                                             \* /a/b/
 ASSUME UR(<<UA, N_index_html>>, <<98>>).page = <<UA, UB, N_index_html>>                                                             \* b (a directory)
 ASSUME UR(<<UA, N_index_html>>, <<46, 46, 47, 46, 46, 47, 120>>).why = "outside-output"                                             \* ../../x
 ASSUME UR(<<UA, N_index_html>>, <<104, 116, 116, 112, 58, 47, 47, 104, 47>>).why = "external"                                       \* http://h/
 ASSUME UR(<<UA, N_index_html>>, <<46, 47, 98, 47, 105, 110, 100, 101, 120, 46, 104, 116, 109, 108, 63, 113, 35, 102>>)
-         = [ok |-> TRUE, why |-> "ok", page |-> <<UA, UB, N_index_html>>, frag |-> <<102>>]                                         \* ./b/index.html?q#f
+         = [ok |-> TRUE, why |-> "ok", page |-> <<UA, UB, N_index_html>>, frag |-> <<102>>, dir |-> FALSE]                                       \* ./b/index.html?q#f
 ASSUME UR(<<UA, N_index_html>>, <<>>).page = <<UA, N_index_html>>
 ASSUME LinkVerdict([from |-> <<UA, N_index_html>>, href |-> <<98, 47, 35, 120>>], UPages, {<<<<UA, UB, N_index_html>>, <<120>>>>}) = "ok"
 ASSUME LinkVerdict([from |-> <<UA, N_index_html>>, href |-> <<98, 47, 35, 121>>], UPages, {<<<<UA, UB, N_index_html>>, <<120>>>>}) = "anchor-not-produced"
 ASSUME LinkVerdict([from |-> <<UA, N_index_html>>, href |-> <<99, 47, 35, 120>>], UPages, {}) = "page-not-produced"
+(* a run whose namespace pages are NOT named index.html (a/page.htm, a/b/page.htm): the directory URL of a namespace denotes  *)
+(* a/b/index.html, which that run does not produce, although a/b/page.htm carries the anchor; naming the page resolves       *)
+N_page_htm == <<112, 97, 103, 101, 46, 104, 116, 109>>
+VPages == {<<UA, N_page_htm>>, <<UA, UB, N_page_htm>>}
+VIds == {<<<<UA, UB, N_page_htm>>, <<120>>>>}
+ASSUME LinkVerdict([from |-> <<UA, N_page_htm>>, href |-> <<98, 47, 35, 120>>], VPages, VIds) = "page-not-produced"                 \* b/#x
+ASSUME Resolve(<<UA, N_page_htm>>, <<98, 47, 35, 120>>, VPages) = [ok |-> TRUE, why |-> "ok", page |-> <<UA, UB, N_index_html>>, frag |-> <<120>>, dir |-> TRUE]
+ASSUME LinkVerdict([from |-> <<UA, N_page_htm>>, href |-> <<98, 35, 120>>], VPages, VIds) = "page-not-produced"                     \* b#x
+ASSUME LinkVerdict([from |-> <<UA, N_page_htm>>, href |-> <<98, 47>> \o N_page_htm \o <<35, 120>>], VPages, VIds) = "ok"            \* b/page.htm#x
+ASSUME LinkVerdict([from |-> <<UA, N_page_htm>>, href |-> <<98, 47>> \o N_page_htm \o <<35, 121>>], VPages, VIds) = "anchor-not-produced"
 IdAttr(v) == [n |-> N_id, hv |-> TRUE, v |-> <<[m |-> 0, i |-> 0, s |-> v]>>]
 ASSUME ~AcceptsPage(<<[OpenEv(N_p) EXCEPT !.a = <<IdAttr(X)>>], CloseEv(N_p), [OpenEv(N_p) EXCEPT !.a = <<IdAttr(X)>>], CloseEv(N_p)>>)   \* id twice
 ULk(h, t) == [pg |-> 1, from |-> <<UA, N_index_html>>, href |-> h, refs |-> {t}, inspan |-> FALSE]
